@@ -92,8 +92,8 @@ Section WithFuel.
 Variable fuel : nat.    (* budget for the inline layer *)
 
 Definition blockattributes_parse (attrs : str) : M bool :=
-  s <- get ;;
-  if parse_skip (s_mode s) then ret true else
+  m <- gets s_mode ;;
+  if parse_skip m then ret true else
   text <- lift (fun s => replaceInline_top fuel s (Some attrs) (mkExpand (Some true) None None None None)) ;;
   match re_match re_blockattributes_parse_0 text with
   | None => ret false
@@ -120,9 +120,8 @@ Definition blockattributes_parse (attrs : str) : M bool :=
                                  else s)
            else ret tt) ;;;
           (if opt_nonempty (grp m2 5)
-           then s <- get ;;
-                let '(e, msgs) := expand_parse (s_mode s) (p_opts s) (grp_s m2 5) in
-                log_msgs msgs ;;; modify (fun s => set_popts s e)
+           then r <- gets (fun s => expand_parse (s_mode s) (p_opts s) (grp_s m2 5)) ;;
+                log_msgs (snd r) ;;; modify (fun s => set_popts s (fst r))
            else ret tt) ;;;
           ret true
       end
@@ -138,8 +137,8 @@ Definition injectHtmlAttributes (tag : str) (consume : bool) : M str :=
   match tag with
   | [] => ret tag
   | _ =>
-      s <- get ;;
-      let classes := p_classes s in
+      pd <- gets (fun s => (p_classes s, p_id s, p_css s, p_attrs s)) ;;
+      let '(classes, pid, css, pattrs) := pd in
       let result := tag in
       (* classes *)
       let '(result, attrs) :=
@@ -151,8 +150,8 @@ Definition injectHtmlAttributes (tag : str) (consume : bool) : M str :=
         else (result, []) in
       (* id *)
       attrs <-
-        (if nonempty (p_id s) then
-           let id := lower (p_id s) in
+        (if nonempty pid then
+           let id := lower pid in
            modify (fun s => set_id s id) ;;;
            let has_id := match re_search re_blockattributes_injectHtmlAttributes_1 result with
                          | Some _ => true | None => false end in
@@ -161,7 +160,6 @@ Definition injectHtmlAttributes (tag : str) (consume : bool) : M str :=
            ret (if has_id then attrs else attrs ++ $" id=""" ++ id ++ [34])
          else ret attrs) ;;
       (* css *)
-      let css := p_css s in
       let '(result, attrs) :=
         if nonempty css then
           match re_search re_blockattributes_injectHtmlAttributes_2 result with
@@ -172,7 +170,7 @@ Definition injectHtmlAttributes (tag : str) (consume : bool) : M str :=
           | None => (result, attrs ++ $" style=""" ++ css ++ [34])
           end
         else (result, attrs) in
-      let attrs := if nonempty (p_attrs s) then attrs ++ [32] ++ p_attrs s else attrs in
+      let attrs := if nonempty pattrs then attrs ++ [32] ++ pattrs else attrs in
       let attrs := strip attrs in
       let result :=
         if nonempty attrs then
@@ -256,8 +254,8 @@ Definition updateFrom (o : opts) : M unit :=
 
 (* ---- definitions ---- *)
 Definition macros_setValue (name value : str) : M unit :=
-  s <- get ;;
-  if setValue_skip (s_mode s) then ret tt else
+  m <- gets s_mode ;;
+  if setValue_skip m then ret tt else
   let existential := ends_with [63] name in
   let name := if existential then drop_last name else name in
   if str_eqb name $"--" && nonempty value then
@@ -305,8 +303,9 @@ Definition replacements_setDefinition (pattern flags replacement : str) : M unit
   end.
 
 Definition dblocks_setDefinition (name value : str) : M unit :=
-  s <- get ;;
-  if negb (existsb (fun d => str_eqb (d_name d) name) (s_dblocks s)) then
+  r <- gets (fun s => (s_dblocks s, s_mode s)) ;;
+  let '(dbs, mode) := r in
+  if negb (existsb (fun d => str_eqb (d_name d) name) dbs) then
     log_msg ($"illegal delimited block name: " ++ name ++ $": |" ++ name ++ $"|='" ++ value ++ $"'")
   else
     match re_search re_delimitedblocks_setDefinition_0 (strip value) with
@@ -321,9 +320,9 @@ Definition dblocks_setDefinition (name value : str) : M unit :=
         match grp m 3 with
         | Some o =>
             (* d.expand.parse(match[3]) *)
-            let d0 := match find (fun d => str_eqb (d_name d) name) (s_dblocks s) with
+            let d0 := match find (fun d => str_eqb (d_name d) name) dbs with
                       | Some d => d | None => dummy_ddef end in
-            let '(e, msgs) := expand_parse (s_mode s) (d_expand d0) o in
+            let '(e, msgs) := expand_parse mode (d_expand d0) o in
             modify (fun s => set_dblocks s (upd_first (fun d => str_eqb (d_name d) name)
               (fun d => let d := upd_tags d in
                         mkD (d_name d) (d_openTag d) (d_closeTag d) (d_openRe d) (d_closeRe d)
@@ -363,40 +362,40 @@ Definition line_filter (d : ldef) (m : mres) : M str :=
       end
   | LfEmpty => ret []
   | LfBlockDef =>
-      s <- get ;;
-      if blockDefFilter_skip (s_mode s) then ret [] else
+      m0 <- gets s_mode ;;
+      if blockDefFilter_skip m0 then ret [] else
       value <- macros_expand (grp m 2) ;;
       dblocks_setDefinition (grp_s m 1) value ;;; ret []
   | LfQuoteDef =>
-      s <- get ;;
-      if quoteDefFilter_skip (s_mode s) then ret [] else
+      m0 <- gets s_mode ;;
+      if quoteDefFilter_skip m0 then ret [] else
       o <- macros_expand (grp m 2) ;;
       c <- macros_expand (grp m 4) ;;
       quotes_setDefinition (mkQ (grp_s m 1) o c (str_eqb (grp_s m 3) [124])) ;;; ret []
   | LfReplDef =>
-      s <- get ;;
-      if replacementDefFilter_skip (s_mode s) then ret [] else
+      m0 <- gets s_mode ;;
+      if replacementDefFilter_skip m0 then ret [] else
       r <- macros_expand (grp m 3) ;;
       replacements_setDefinition (grp_s m 1) (grp_s m 2) r ;;; ret []
   | LfMacroDef =>
-      s <- get ;;
-      if macroDefFilter_skip (s_mode s) then ret [] else
+      m0 <- gets s_mode ;;
+      if macroDefFilter_skip m0 then ret [] else
       value <- macros_expand (grp m 2) ;;
       macros_setValue (grp_s m 1) value ;;; ret []
   | LfHeader =>
-      s <- get ;;
-      (if opt_nonempty (getValue s $"--header-ids") && is_empty (p_id s)
+      want_id <- gets (fun s => opt_nonempty (assoc_get $"--header-ids" (s_macros s)) && is_empty (p_id s)) ;;
+      (if want_id
        then modify (fun s => set_id s (slugify (s_ids s) (grp_s m 2)))
        else ret tt) ;;;
       result <- lift (fun s => replaceMatch_top fuel s m ng (l_repl d) expand_macros) ;;
       ret (replace_all (grp_s m 1 ++ [62]) (str_of_N (lenN (grp_s m 1)) ++ [62]) result)
   | LfAnchor =>
-      s <- get ;;
-      if anchorFilter_skip (s_mode s) then ret []
+      m0 <- gets s_mode ;;
+      if anchorFilter_skip m0 then ret []
       else lift (fun s => replaceMatch_top fuel s m ng (l_repl d) expand_macros)
   | LfApiOption =>
-      s <- get ;;
-      if apiOptionFilter_skip (s_mode s) then ret [] else
+      m0 <- gets s_mode ;;
+      if apiOptionFilter_skip m0 then ret [] else
       value <- macros_expand (grp m 2) ;;
       setOption_doc (grp_s m 1) value ;;; ret []
   end.
@@ -515,8 +514,7 @@ Definition dblock_body (i : nat) (d : ddef) (m : mres) (rest : reader) : M (str 
          modify (set_closeRe i (lit_close (grp_s m 1))) ;;;
          ret []
      end) ;;
-  s <- get ;;
-  let closeRe := d_closeRe (nth i (s_dblocks s) d) in
+  closeRe <- gets (fun s => d_closeRe (nth i (s_dblocks s) d)) ;;
   match readTo closeRe rest with
   | Raise e => raise e
   | Fuel => out_of_fuel
@@ -526,8 +524,7 @@ Definition dblock_body (i : nat) (d : ddef) (m : mres) (rest : reader) : M (str 
        else ret tt) ;;;
       let rd2 := tl rd1 in
       let lines := (match delimiterText with [] => [] | _ => [delimiterText] end) ++ content in
-      s <- get ;;
-      let expand := expand_merge (d_expand (nth i (s_dblocks s) d)) (p_opts s) in
+      expand <- gets (fun s => expand_merge (d_expand (nth i (s_dblocks s) d)) (p_opts s)) ;;
       out <-
         (if truthy (e_skip expand) then ret []
          else
@@ -535,13 +532,12 @@ Definition dblock_body (i : nat) (d : ddef) (m : mres) (rest : reader) : M (str 
            text <- (match d_content d with
                     | CfNone => ret text
                     | CfMacroDef => macroDefContentFilter text m expand
-                    | CfHtml => s <- get ;; ret (htmlSafeModeFilter s text)
+                    | CfHtml => gets (fun s => htmlSafeModeFilter (ienv_of s) text)
                     | CfIndented => match indentedContentFilter text with
                                     | Ok t => ret t | Raise e => raise e | Fuel => out_of_fuel end
                     | CfQuotePara => ret (quoteParagraphContentFilter text)
                     end) ;;
-           s <- get ;;
-           let d' := nth i (s_dblocks s) d in
+           d' <- gets (fun s => nth i (s_dblocks s) d) ;;
            let is_html := str_eqb (d_name d) $"html" in
            text <- (if is_html then injectHtmlAttributes text true else ret text) ;;
            opentag <- (if is_html then ret (d_openTag d') else injectHtmlAttributes (d_openTag d') true) ;;
@@ -551,8 +547,7 @@ Definition dblock_body (i : nat) (d : ddef) (m : mres) (rest : reader) : M (str 
                          doc text
                     else lift (fun s => replaceInline_top fuel s (Some text) expand)) ;;
            (* d.closeTag is read after the nested render (the definition may have been changed by it) *)
-           s <- get ;;
-           let closetag := d_closeTag (nth i (s_dblocks s) d') in
+           closetag <- gets (fun s => d_closeTag (nth i (s_dblocks s) d')) ;;
            let '(opentag, closetag) :=
              if str_eqb (d_name d) $"division" && str_eqb opentag $"<div>" then ([], []) else (opentag, closetag) in
            let body := opentag ++ text ++ closetag in
@@ -565,8 +560,8 @@ Fixpoint dblock_loop (k : nat) (i : nat) (rd : reader) (allowed : list str) : M 
   match k with
   | O => ret (None, rd)
   | S k' =>
-      s <- get ;;
-      match nth_error (s_dblocks s) i with
+      od <- gets (fun s => nth_error (s_dblocks s) i) ;;
+      match od with
       | None => ret (None, rd)
       | Some d =>
           if (match allowed with [] => false | _ => true end) && negb (mem (d_name d) allowed)
@@ -597,8 +592,8 @@ Fixpoint dblock_loop (k : nat) (i : nat) (rd : reader) (allowed : list str) : M 
   end.
 
 Definition dblocks_render (rd : reader) (allowed : list str) : M (option str * reader) :=
-  s <- get ;;
-  dblock_loop (length (s_dblocks s)) 0 rd allowed.
+  k <- gets (fun s => length (s_dblocks s)) ;;
+  dblock_loop k 0 rd allowed.
 
 (* ---- lists ---- *)
 Record item := mkItem { it_m : mres; it_def : listdef; it_id : str }.
@@ -658,8 +653,8 @@ Fixpoint consumeBlockAttributes (n : nat) (rd : reader) (blanks : Z) (acc : str)
   end.
 
 Definition pop_listid : M unit :=
-  s <- get ;;
-  match frev (s_listids s) with
+  ids <- gets s_listids ;;
+  match frev ids with
   | [] => raise ExPopEmpty
   | _ :: r => modify (fun s => set_listids s (frev r))
   end.
@@ -731,8 +726,8 @@ with itemLoop (n : nat) (rd : reader) (itemLines attached : str) (attachedDone :
         let '(nextItem, rd2) := r in
         match nextItem with
         | Some nx =>
-            s <- get ;;
-            if mem (it_id nx) (s_listids s) then ret (Some nx, rd2, itemLines, attached)
+            is_open <- gets (fun s => mem (it_id nx) (s_listids s)) ;;
+            if is_open then ret (Some nx, rd2, itemLines, attached)
             else
               r <- renderList n' nx rd2 ;;
               let '(out, nn, rd3) := r in
@@ -740,8 +735,7 @@ with itemLoop (n : nat) (rd : reader) (itemLines attached : str) (attachedDone :
         | None =>
             if attachedDone then ret (None, rd2, itemLines, attached)
             else if (blankLines =? 0)%Z then
-              s <- get ;;
-              let saved := s_listids s in
+              saved <- gets s_listids ;;
               modify (fun s => set_listids s []) ;;;
               r <- dblocks_render rd2 lists_allowed0 ;;
               modify (fun s => set_listids s saved) ;;;
@@ -773,8 +767,8 @@ Definition lists_render (n : nat) (rd : reader) : M (option str * reader) :=
       modify (fun s => set_listids s []) ;;;
       r <- renderList n it rd' ;;
       let '(out, _, rd2) := r in
-      s <- get ;;
-      (match s_listids s with [] => ret tt | _ => log_msg $"panic: list stack failure" end) ;;;
+      ids <- gets s_listids ;;
+      (match ids with [] => ret tt | _ => log_msg $"panic: list stack failure" end) ;;;
       ret (Some out, rd2)
   end.
 
@@ -816,8 +810,8 @@ Fixpoint doc_render (n : nat) (text : str) : M str :=
 
 (* rimu.render *)
 Definition api_render (n : nat) (source : str) (o : opts) : M str :=
-  s <- get ;;
-  (if (s_mode s =? -1)%Z then modify document_init else ret tt) ;;;
+  m <- gets s_mode ;;
+  (if (m =? -1)%Z then modify document_init else ret tt) ;;;
   updateFrom o ;;;
   doc_render n source.
 
